@@ -1,7 +1,7 @@
 (* C06  Secret sharing is textbook Shamir over GF(2^128+12451).  Statements only. *)
 From Coq Require Import ZArith NArith List.
 Import ListNotations.
-From StarV Require Import Params Bytes Fp PolyDefs Shamir FieldFacts Lagrange ShamirFacts LimbPrim LimbGen FpLimbs LimbFacts LimbShamir.
+From StarV Require Import Params Bytes Fp PolyDefs Shamir FieldFacts Lagrange ShamirFacts LimbPrim LimbGen FpLimbs LimbFacts LimbShamir LimbDeal.
 
 (* every share is a point (x, f_1 x, ..., f_k x) on the dealt polynomials *)
 Theorem C06_share_is_point : forall (polys : list (list fp)) (x : fp),
@@ -90,3 +90,19 @@ Proof. intros l l' H. split; [exact (linterp_correct l l' H)|exact (linterp_fast
 Theorem C06_limbs_interpolate_no_unwrap_panic : forall (pts : list limbs) (a b : limbs),
   Forall lvalid pts -> lvalid a -> In b (others limbs leqb pts a) -> linvert (lsub b a) <> None.
 Proof. exact linterp_no_unwrap_panic. Qed.
+(* the dealer at the limb level: a round of Fp::random in the limb code is the sampler of the big-integer model (so the
+   coefficients drawn are the same field elements), and every share value computed by the limb code represents the
+   model's share value *)
+Theorem C06_limbs_random_is_model_sampler : forall a b c : N,
+  (a < 18446744073709551616)%N -> (b < 18446744073709551616)%N -> (c < 18446744073709551616)%N ->
+  match lrandom_round (Z.of_N a) (Z.of_N b) (Z.of_N c), fp_of_limbs a b c with
+  | Some t, Some x => lvalid t /\ labs t = x
+  | None, None => True
+  | _, _ => False
+  end.
+Proof. exact lrandom_round_is_fp_of_limbs. Qed.
+Theorem C06_limbs_share_values : forall (polys : list (list limbs)) (polys' : list (list fp)) (x : limbs) (x' : fp),
+  Forall2 (Forall2 lrel) polys polys' -> lrel x x' ->
+  lrel (fst (levaluate polys x)) (sx (evaluate polys' x')) /\
+  Forall2 lrel (snd (levaluate polys x)) (sy (evaluate polys' x')).
+Proof. exact levaluate_correct. Qed.
